@@ -41,7 +41,6 @@ for f in sorted(glob.glob('/root/vscratch/seed_check*.log')):
                     first.setdefault(sid, int(m.group(2)))
 OVERRIDE = {
     'C15-2': 'caught (ported to HEAD, see meta.json)',   # original patch conflicts with fix 4263330; patch_ported_to_head.diff is what was checked
-    'C16-3': 'not caught: piping is outside the claim',
 }
 rows = []
 for d in sorted(glob.glob('/verif/seeded/C*-*')):
